@@ -485,3 +485,189 @@ Qed.
 Theorem reachable_resume_accounts : forall a s r tmo x',
   reachable s -> resume_session a s r tmo = Resumed (ROk x') -> sprint_accounts a s x'.
 Proof. intros. eapply resume_accounts; eauto. apply reachable_post; assumption. Qed.
+
+(* ================================================================================================== *)
+(* Trichotomy of a resume (C10)                                                                          *)
+(* ================================================================================================== *)
+
+(* C10: what a resume of a waiting session does is decided by three situations that are written
+   from the property sentence over the session and the asset store alone (no reference to the engine function):
+
+     rejected_by_statement  - the session is not waiting / has no waiting run / the wait at the waiting run's location
+                              does not accept that type of resume (and resumption is not impossible);
+     impossible             - missing or unusable flow, resume limit reached, vanished node, node without wait
+                              (EngineProofs.impossible);
+     otherwise              - the resume is applied: the sprint begins with the resume's own event.
+
+   Proved: the engine rejects a resume (in all three forms of the model: resume_session, resume_m, resume_mp) EXACTLY in
+   the first situation; and a resume that is not rejected ends as "failed without having run anything" (its sprint is
+   exactly one failure event of the waiting run) EXACTLY in the second - the converse of impossible_fails. *)
+
+
+(* the three kinds of rejection of the property sentence *)
+Definition rejected_by_statement (a : assets) (s : session) (r : resume) : Prop :=
+  s_status s <> SWaiting \/
+  (s_status s = SWaiting /\ no_waiting_run s) \/
+  (s_status s = SWaiting /\
+   exists wi pos n w, waiting_run s = Some wi /\ ~ impossible a s wi /\
+                      resume_site a s wi (Some (pos, n, w)) /\ accepts w r = false).
+
+Lemma not_impossible_iff : forall a s wi pos n w,
+  resume_site a s wi (Some (pos, n, w)) ->
+  (~ impossible a s wi <-> ~ flow_unusable a s wi /\ ~ resume_limit_reached a s).
+Proof.
+  intros a s wi pos n w Hs. unfold impossible. split.
+  - intros H. split; intros C; apply H; auto.
+  - intros [H1 H2] [C|[C|C]]; auto.
+    pose proof (resume_site_fun _ _ _ _ _ Hs C). discriminate.
+Qed.
+
+Theorem rejected_iff_statement : forall a s r tmo,
+  (exists code, resume_session a s r tmo = Rejected code) <-> rejected_by_statement a s r.
+Proof.
+  intros a s r tmo. unfold rejected_by_statement. split.
+  - intros [code H]. apply reject_iff in H.
+    destruct H as [[_ H]|[(_ & H1 & H2)|(_ & H1 & wi & pos & n & w & Hw & Hf & Hl & Hs & Ha)]].
+    + left; exact H.
+    + right; left; auto.
+    + right; right. split; [exact H1|]. exists wi, pos, n, w. split; [exact Hw|]. split; [|split; assumption].
+      apply (not_impossible_iff _ _ _ _ _ _ Hs). split; assumption.
+  - intros [H|[(H1 & H2)|(H1 & wi & pos & n & w & Hw & Hi & Hs & Ha)]].
+    + exists 101. apply reject_iff. left; auto.
+    + exists 102. apply reject_iff. right; left; auto.
+    + exists 103. apply reject_iff. right; right. split; [reflexivity|]. split; [exact H1|].
+      exists wi, pos, n, w. apply (not_impossible_iff _ _ _ _ _ _ Hs) in Hi. destruct Hi. repeat split; assumption.
+Qed.
+
+(* the state-passing forms: an engine error is returned exactly in the same situation *)
+Theorem resume_m_error_iff_statement : forall a s r tmo,
+  (exists x' code, resume_m a s r tmo = (x', OErr code)) <-> rejected_by_statement a s r.
+Proof.
+  intros a s r tmo. rewrite <- (rejected_iff_statement a s r tmo). rewrite (resume_m_agrees a s r tmo).
+  destruct (resume_m a s r tmo) as [x o]. simpl. split.
+  - intros (x' & code & H). inversion H; subst. exists code. reflexivity.
+  - intros [code H]. destruct o; simpl in H; [|discriminate]. exists x, code0. reflexivity.
+Qed.
+
+Theorem resume_mp_error_iff_statement : forall a s loaded r tmo,
+  (exists x' loaded' code, resume_mp a s loaded r tmo = (x', loaded', OErr code)) <-> rejected_by_statement a s r.
+Proof.
+  intros a s loaded r tmo. rewrite <- (resume_m_error_iff_statement a s r tmo). unfold resume_mp.
+  destruct (resume_m a s r tmo) as [x o]. split.
+  - intros (x' & l' & code & H). inversion H; subst. exists x', code. reflexivity.
+  - intros (x' & code & H). inversion H; subst. eexists; eexists; eexists; reflexivity.
+Qed.
+
+(* ---- a resume that is applied begins its sprint with the resume's own event ------------------------------------- *)
+
+Definition resume_kind (r : resume) : ekind :=
+  match r with RMsg t => EMsgReceived t | RTimeout => EWaitTimedOut | RExpiration => ERunExpired | RDial => EDialEnded end.
+
+Lemma resume_kind_not_failure : forall r c, resume_kind r <> EFailure c.
+Proof. intros [] c; discriminate. Qed.
+
+Lemma apply_resume_events : forall x wi sr r,
+  sp_events (sprint_ (apply_resume x wi sr r)) = sp_events (sprint_ x) ++ [(Some wi, {| ev_step := sr; ev_kind := resume_kind r |})].
+Proof. intros x wi sr r. destruct r; reflexivity. Qed.
+
+(* the applied resume: everything the call produces comes after the state in which the resume has been applied *)
+Lemma resume_applied_ext : forall a s r tmo x' wi pos n w,
+  post_inv s -> s_status s = SWaiting -> waiting_run s = Some wi ->
+  ~ flow_unusable a s wi -> ~ resume_limit_reached a s -> resume_site a s wi (Some (pos, n, w)) -> accepts w r = true ->
+  resume_session a s r tmo = Resumed (ROk x') ->
+  ext a (apply_resume (resume_x0 s) wi (Some (wi, pos)) r) x'.
+Proof.
+  intros a s r tmo x' wi pos n w Hpost Hst Ewr Hfu Hlim Hsite Hacc H.
+  pose proof (waiting_run_lt _ _ Ewr) as Hlt.
+  rewrite (resume_proceeds a s r tmo wi pos n w Hst Ewr Hfu Hlim Hsite Hacc) in H. cbv zeta in H.
+  change (with_session {| session_ := s; sprint_ := empty_sprint |} (fun s0 => set_status s0 SActive)) with (resume_x0 s) in H.
+  set (x1 := apply_resume (resume_x0 s) wi (Some (wi, pos)) r) in *.
+  assert (M : forall l, l_cur l = Some wi -> l_exit l = None -> mid_inv x1 l wi None).
+  { intros l Hc He. apply resume_mid_inv; auto. }
+  set (l0 := {| l_cur := Some wi; l_node := None; l_exit := None; l_operand := []; l_step := None; l_steps := 0%Z; l_trigger := false |}).
+  pose proof (mid_inv_nruns _ _ _ _ (M l0 eq_refl eq_refl)) as Hlt1.
+  pose proof (find_resume_exit_shape a x1 wi (is_timeout r) tmo) as Hfre.
+  pose proof (find_resume_exit_ext a x1 wi (is_timeout r) tmo Hlt1) as Hfe.
+  destruct (find_resume_exit a x1 wi (is_timeout r) tmo) as [x2 e op|x2|x2|]; try contradiction; try discriminate.
+  - inversion H as [Hc]. clear H.
+    assert (HL : loop_inv x2 {| l_cur := Some wi; l_node := Some (match get_run s wi with Some rn => r_flow rn | None => 0 end, n_id n);
+                                l_exit := e; l_operand := op; l_step := Some (wi, pos); l_steps := 0%Z; l_trigger := false |}).
+    { destruct Hfre as [[Hss Hact]|[-> Hfsh]].
+      - eapply mid_same; [apply (M l0); reflexivity|exact Hss|reflexivity|].
+        simpl. intros He. rewrite <- status_at_st_at. apply Hact. exact He.
+      - eapply mid_fail_cur; [apply (M l0); reflexivity|exact Hfsh|reflexivity|reflexivity]. }
+    eapply ext_trans; [exact Hfe|]. eapply cuw_ext; eauto.
+  - subst x2. inversion H; subst. apply fail_session_ext. exact Hlt1.
+Qed.
+
+(* ---- the trichotomy -------------------------------------------------------------------------------------------- *)
+
+(* the sprint of a call that failed the session without running anything *)
+Definition only_a_failure (wi : nat) (x' : st) : Prop :=
+  exists c, sp_events (sprint_ x') = [(Some wi, failure_event c)].
+
+Theorem failed_without_running_iff_impossible : forall a s r tmo wi x',
+  post_inv s -> s_status s = SWaiting -> waiting_run s = Some wi ->
+  resume_session a s r tmo = Resumed (ROk x') ->
+  (impossible a s wi <-> only_a_failure wi x').
+Proof.
+  intros a s r tmo wi x' Hpost Hst Ewr H. split.
+  - intros Himp. destruct (impossible_fails a s r tmo wi Hst Ewr Himp) as (y & Hy & He).
+    rewrite H in Hy. inversion Hy; subst y. destruct He as (_ & (c & Hc & _) & _). exists c. exact Hc.
+  - intros [c Hc].
+    destruct (run_flow_unusable a s wi) eqn:Efu; [left; exact Efu|].
+    destruct (Z.of_nat (count_waits s) >=? max_resumes (a_opts a))%Z eqn:Ecw.
+    { right; left. unfold resume_limit_reached. lia. }
+    destruct (resume_site_total a s wi) as [[[[pos n] w]|] Hsite]; [|right; right; exact Hsite].
+    exfalso.
+    assert (Hfu : ~ flow_unusable a s wi) by (unfold flow_unusable; congruence).
+    assert (Hlim : ~ resume_limit_reached a s) by (unfold resume_limit_reached; lia).
+    destruct (accepts w r) eqn:Hacc.
+    + pose proof (resume_applied_ext a s r tmo x' wi pos n w Hpost Hst Ewr Hfu Hlim Hsite Hacc H) as (_ & new & Hev & _).
+      rewrite apply_resume_events in Hev. simpl in Hev. rewrite Hc in Hev.
+      unfold failure_event in Hev. inversion Hev.   (* the first event names a step; a failSession failure names none *)
+    + assert (R : resume_session a s r tmo = Rejected 103).
+      { apply reject_iff. right; right. split; [reflexivity|]. split; [exact Hst|]. exists wi, pos, n, w. repeat split; assumption. }
+      rewrite H in R. discriminate.
+Qed.
+
+(* every resume of a waiting session with a waiting run falls into exactly one of the three situations, and the engine
+   answers each with its own outcome *)
+Theorem resume_trichotomy : forall a s r tmo wi,
+  post_inv s -> s_status s = SWaiting -> waiting_run s = Some wi ->
+  (rejected_by_statement a s r /\ ~ impossible a s wi /\ exists code, resume_session a s r tmo = Rejected code) \/
+  (impossible a s wi /\ ~ rejected_by_statement a s r /\
+     exists x', resume_session a s r tmo = Resumed (ROk x') /\ ended_as_failed s wi x') \/
+  (~ rejected_by_statement a s r /\ ~ impossible a s wi /\
+     exists pos n w, resume_site a s wi (Some (pos, n, w)) /\ accepts w r = true /\
+       forall x', resume_session a s r tmo = Resumed (ROk x') ->
+         exists new, sp_events (sprint_ x') = (Some wi, {| ev_step := Some (wi, pos); ev_kind := resume_kind r |}) :: new).
+Proof.
+  intros a s r tmo wi Hpost Hst Ewr.
+  assert (Dimp : impossible a s wi \/ ~ impossible a s wi).
+  { destruct (run_flow_unusable a s wi) eqn:Efu; [left; left; exact Efu|].
+    destruct (Z.of_nat (count_waits s) >=? max_resumes (a_opts a))%Z eqn:Ecw.
+    { left; right; left. unfold resume_limit_reached. lia. }
+    destruct (resume_site_total a s wi) as [[[[pos n] w]|] Hsite]; [|left; right; right; exact Hsite].
+    right. apply (not_impossible_iff _ _ _ _ _ _ Hsite). split; [unfold flow_unusable; congruence|unfold resume_limit_reached; lia]. }
+  destruct Dimp as [Himp|Hni].
+  - right; left. split; [exact Himp|]. split.
+    + intros Hrej. apply (rejected_iff_statement a s r tmo) in Hrej. destruct Hrej as [code Hc].
+      destruct (impossible_fails a s r tmo wi Hst Ewr Himp) as (y & Hy & _). congruence.
+    + apply impossible_fails; assumption.
+  - destruct (resume_site_total a s wi) as [[[[pos n] w]|] Hsite]; [|exfalso; apply Hni; right; right; exact Hsite].
+    pose proof (proj1 (not_impossible_iff _ _ _ _ _ _ Hsite) Hni) as [Hfu Hlim].
+    destruct (accepts w r) eqn:Hacc.
+    + right; right. split.
+      * intros Hrej. apply (rejected_iff_statement a s r tmo) in Hrej. destruct Hrej as [code Hc].
+        apply reject_iff in Hc. destruct Hc as [[_ C]|[(_ & _ & C)|(_ & _ & wi' & pos' & n' & w' & E1 & _ & _ & Hs' & Ha')]].
+        -- contradiction.
+        -- apply (waiting_run_from_none (s_runs s) 0) in C. unfold waiting_run in Ewr. congruence.
+        -- rewrite Ewr in E1; inversion E1; subst wi'. pose proof (resume_site_fun _ _ _ _ _ Hsite Hs') as K. inversion K; subst. congruence.
+      * split; [exact Hni|]. exists pos, n, w. split; [exact Hsite|]. split; [exact Hacc|].
+        intros x' H. pose proof (resume_applied_ext a s r tmo x' wi pos n w Hpost Hst Ewr Hfu Hlim Hsite Hacc H) as (_ & new & Hev & _).
+        rewrite apply_resume_events in Hev. simpl in Hev. exists new. exact Hev.
+    + left. assert (Hrej : rejected_by_statement a s r).
+      { right; right. split; [exact Hst|]. exists wi, pos, n, w. repeat split; assumption. }
+      split; [exact Hrej|]. split; [exact Hni|]. apply (rejected_iff_statement a s r tmo). exact Hrej.
+Qed.
